@@ -8,6 +8,8 @@ Require Import Verif.Foreign.ImportSpec Verif.Foreign.ImportProps Verif.Foreign.
 Require Import Verif.Foreign.XsdSpec Verif.Foreign.XsdProps Verif.Foreign.EndpointSpec Verif.Foreign.EndpointProps.
 Require Import Verif.Foreign.TypeFormatProps Verif.Foreign.ImportDeterm.
 Require Import Verif.Foreign.ResponseSpec Verif.Foreign.ResponseProps Verif.Foreign.ResponseTheorems.
+Require Import Verif.Foreign.NestedSpec Verif.Foreign.NestedProps Verif.Foreign.NestedRun Verif.Foreign.NestedTheorems.
+Require Import Verif.Foreign.ParamNameSpec Verif.Foreign.ParamNameProps.
 
 (* --- safe_name_valid_and_faithful, over ALL byte strings, for the replacement table of the current source --- *)
 Theorem C11_safe_name_is_a_Name : forall s, name_re (safe_name_cur s) = true.
@@ -102,7 +104,7 @@ Print Assumptions C11_import_primitive_kinds.
 Theorem C11_import_sound : forall doc k sh,
   doc_ok safe_name_cur is_builtin_c tname_c map_type_c doc -> In (k, sh) (import_c doc) ->
   exists n b, In (n, b) doc
-    /\ (k, sh) = ctype tname_c fname_c unesc_c native_c (load safe_name_cur is_builtin_c tname_c map_type_c [] (safe_name_cur n) b)
+    /\ (k, sh) = ctype tname_c fname_c unesc_c native_c (ImportSpec.load safe_name_cur is_builtin_c tname_c map_type_c [] (safe_name_cur n) b)
     /\ forall fs, sh = TTuple fs ->
          exists props required, b = OObject props required /\ k = tkey safe_name_cur tname_c unesc_c n
            /\ forall fk f, In (fk, f) fs ->
@@ -145,7 +147,7 @@ Theorem C11_import_decisions_current :
   List.length Verif.Gen.ForeignTables.convert_shape = 4%nat
   /\ nth_error Verif.Gen.ForeignTables.convert_shape 3 = Some "o.types.Sort()"%string
   /\ nth_error Verif.Gen.ForeignTables.array_rule 4
-     = Some "if _, ok := t.(*Array); !ok && ref.Value.Type.Is(openapi3.TypeArray) { return &Array{Items: t} }"%string
+     = Some "if _, ok := t.(*Array); !ok && ref.Ref == """" && ref.Value.Type.Is(openapi3.TypeArray) { return &Array{Items: t} }"%string
   /\ nth_error Verif.Gen.ForeignTables.object_tail 0
      = Some "if len(obj.Properties) == 0 { return NewStringAlias(name), nil }"%string
   /\ List.length Verif.Gen.ForeignTables.find_shape = 3%nat
@@ -461,3 +463,128 @@ Print Assumptions C11_type_name_is_a_Name.
 Theorem C11_external_alias_name_is_a_Name : forall s, name_re (external_prefix ++ safe_name_cur s) = true.
 Proof. exact external_alias_name_is_a_Name. Qed.
 Print Assumptions C11_external_alias_name_is_a_Name.
+
+(* ================= Deepen round 3, second pass: nested schemas (Foreign/NestedSpec.v) ================= *)
+
+(* loadTypeSchema on ANY nested schema (inline objects to any depth, arrays of arrays, arrays of inline objects,
+   allOf): the type returned has the name asked for, the type list only grows, and the types appended are exactly
+   those of the pure function names_of, in that order *)
+Theorem C11_nested_generated_types_exact : forall s st stack name t st',
+  load_c s st stack name = Some (t, st') ->
+  itype_name t = name /\ exists ext, st' = st ++ ext /\ map itype_name ext = names_of_c s stack name.
+Proof. exact nested_generated_names_current. Qed.
+Print Assumptions C11_nested_generated_types_exact.
+
+(* import_complete for nested documents: if the generated names and the definition names are pairwise distinct and
+   none is a builtin type name, no definition is skipped, every type of the list is compiled, and every definition
+   is COVERED: every inline object - at any depth, under arrays, arrays of arrays - has a type in the list whose
+   written name is the word of the field that refers to it, with a field for every property (optional iff not in
+   `required`), every inner array a named array type *)
+Theorem C11_nested_import_complete : forall doc pr,
+  ndoc_ok_c doc -> import_nested_c doc = Some pr ->
+  exists L, nconvert_c doc = Some L /\
+    (forall t, In t L -> In (ctype tname_c fname_c unesc_c native_c t) pr) /\
+    forall d, In d doc -> def_covered_c L d.
+Proof. exact nested_import_complete_current. Qed.
+Print Assumptions C11_nested_import_complete.
+Example C11_nested_import_complete_hypotheses_met : ndoc_ok_c sample_ndoc.
+Proof. exact sample_ndoc_ok. Qed.
+
+(* import_sound for nested documents: every type of the list is a definition or one of its generated types *)
+Theorem C11_nested_import_sound : forall doc l t,
+  ndoc_ok_c doc -> nloaded_list safe_name_cur is_builtin_c tname_c map_type_c doc = Some l -> In t l ->
+  exists d, In d doc /\ In (itype_name t) (def_names safe_name_cur map_type_c d).
+Proof. exact nested_sound_current. Qed.
+Print Assumptions C11_nested_import_sound.
+
+(* allOf: no field name of any part and no own property is lost (for ALL allOf schemas that import at all) *)
+Theorem C11_allof_complete : forall allof props req st stack name t st',
+  load_c (NObj allof props req) st stack name = Some (t, st') ->
+  (forall p, In p allof -> exists stp tp stp', load_c p stp (stack ++ [name]) [] = Some (tp, stp') /\
+     forall fs, std_fields tp = Some fs -> forall f, In f fs ->
+       exists g, In g (final_fields t) /\ if_name g = if_name f) /\
+  (forall np, In np props -> exists g, In g (final_fields t) /\ if_name g = fst np
+                                      /\ if_opt g = negb (bmem (fst np) req)).
+Proof. exact allof_complete_current. Qed.
+Print Assumptions C11_allof_complete.
+
+(* with distinct field names the allOf merge and SortWithoutDupl keep every field as it is *)
+Theorem C11_allof_distinct_names_keep_all : forall acc sub,
+  NoDup (map if_name (acc ++ sub)) -> merge_fields acc sub = acc ++ sub /\ dedup (acc ++ sub) = Some (acc ++ sub).
+Proof. intros acc sub H. split; [exact (merge_distinct acc sub H)|exact (dedup_distinct _ H)]. Qed.
+Print Assumptions C11_allof_distinct_names_keep_all.
+
+(* refuted outside the hypotheses; both replayed on the real code (known findings) *)
+Theorem C11_definition_shadowed_by_inline_type_refuted :
+  exists doc pr fs, import_nested_c doc = Some pr
+    /\ In (s "A_b", NObj [] [(s "other", str_t); (s "more", NPrim "boolean" "")] []) doc
+    /\ lookup (s "A_b") pr = Some (TTuple fs) /\ map fst fs = [s "q"] /\ ~ ndoc_ok_c doc.
+Proof. exact definition_shadowed_by_inline_type_refuted. Qed.
+Print Assumptions C11_definition_shadowed_by_inline_type_refuted.
+
+Theorem C11_allof_redeclared_property_refuted : exists doc, ndoc_ok_c doc /\ import_nested_c doc = None.
+Proof. exact allof_redeclared_property_refuted. Qed.
+Print Assumptions C11_allof_redeclared_property_refuted.
+
+(* regenerated obligations: the code the nested model transliterates (the full statement texts are compared in
+   NestedTheorems.v: *_shape_ok) *)
+Theorem C11_nested_decisions_current :
+  List.length Verif.Gen.ForeignTables.build_field_shape = 13%nat
+  /\ nth_error Verif.Gen.ForeignTables.build_field_shape 4
+     = Some "if prop.Ref != """" { f.Type = nameOnlyType(typeName) return f, nil }"%string
+  /\ nth_error Verif.Gen.ForeignTables.load_array_shape 2
+     = Some "innerArray := schema.Items.Ref == """" && schema.Items.Value.Type.Is(openapi3.TypeArray)"%string
+  /\ List.length Verif.Gen.ForeignTables.load_array_shape = 5%nat
+  /\ List.length Verif.Gen.ForeignTables.object_loops_shape = 2%nat
+  /\ nth_error Verif.Gen.ForeignTables.sysl_type_name_shape 4 = Some "return item.Name()"%string
+  /\ List.length Verif.Gen.ForeignTables.type_list_add_shape = 5%nat.
+Proof.
+  rewrite build_field_shape_ok, load_array_shape_ok, object_loops_shape_ok, sysl_type_name_shape_ok, type_list_add_shape_ok.
+  repeat split; reflexivity.
+Qed.
+Print Assumptions C11_nested_decisions_current.
+
+(* ================= second pass: the written names of parameters (Foreign/ParamNameSpec.v) ================= *)
+
+(* query parameters, ALL byte strings: a name without '~' is Name material throughout (blanks never survive
+   convertToSyslSafe, every other byte is kept or %XX-escaped); it is a Name if it starts like one - e.g. with a
+   letter or '_' *)
+Theorem C11_query_name_is_a_Name_partial : forall n,
+  ~ In "~"%char n -> start_ok (query_name n) = true -> name_re (query_name n) = true.
+Proof. exact query_name_is_a_Name_partial. Qed.
+Print Assumptions C11_query_name_is_a_Name_partial.
+Theorem C11_query_written_start : forall c r, is_name_start c = true -> start_ok (query_written (c :: r)) = true.
+Proof. exact query_written_start. Qed.
+Print Assumptions C11_query_written_start.
+Example C11_query_name_hypotheses_met :
+  ~ In "~"%char (of_string "a.b") /\ start_ok (query_name (of_string "a.b")) = true.
+Proof. split; [vm_compute; intuition discriminate|vm_compute; reflexivity]. Qed.
+Theorem C11_query_name_tilde_refuted : name_re (query_name (of_string "c~d")) = false.
+Proof. exact query_name_tilde_refuted. Qed.
+Theorem C11_query_name_leading_digit_refuted : name_re (query_name (of_string "1st")) = false.
+Proof. exact query_name_leading_digit_refuted. Qed.
+(* faithfulness is refuted: '-' and ' ' change the name, and nothing records the original *)
+Theorem C11_query_name_unfaithful_refuted :
+  query_name (of_string "page-size") = of_string "pageSize" /\ query_name (of_string "first name") = of_string "firstname".
+Proof. exact query_name_unfaithful_refuted. Qed.
+Print Assumptions C11_query_name_unfaithful_refuted.
+
+(* header parameters, ALL byte strings of letters, digits, '_', ' ', '-' that do not start with a digit *)
+Theorem C11_header_name_is_a_Name_partial : forall c r,
+  forallb h_ok (c :: r) = true -> is_digit c = false -> name_re (header_field_name (c :: r)) = true.
+Proof. exact header_name_is_a_Name_partial. Qed.
+Print Assumptions C11_header_name_is_a_Name_partial.
+Example C11_header_name_hypotheses_met :
+  forallb h_ok (of_string "X-Request Id") = true /\ header_field_name (of_string "X-Request Id") = of_string "x_request_id".
+Proof. exact header_name_hypotheses_met. Qed.
+Theorem C11_header_name_raw_byte_refuted :
+  name_re (header_field_name (of_string "a.b")) = false /\ name_re (header_field_name ["h"; """"; "q"]%char) = false
+  /\ name_re (header_field_name (of_string "1st")) = false.
+Proof. exact header_name_raw_byte_refuted. Qed.
+Print Assumptions C11_header_name_raw_byte_refuted.
+
+(* path variables: the type is attached by searching the escaped path for the unescaped name *)
+Theorem C11_path_var_escaped_name_untyped_refuted :
+  path_var_typed (of_string "/items/{a.b}") (of_string "a.b") = false.
+Proof. exact path_var_escaped_name_untyped_refuted. Qed.
+Print Assumptions C11_path_var_escaped_name_untyped_refuted.
